@@ -253,12 +253,72 @@ def check(ctx, facts, cfg):
             x = x[1]
         return x
 
+    def mentions_call(c, path, args, depth=0):
+        if not isinstance(c, tuple) or depth > 30:
+            return False
+        if c and c[0] == 'call' and c[1] == path:
+            return tuple(strip_refs_c(a) for a in c[2]) == tuple(args)
+        return any(mentions_call(x, path, args, depth + 1) for x in c[1:] if isinstance(x, tuple)) or \
+            (c and c[0] == 'call' and any(mentions_call(x, path, args, depth + 1) for x in c[2]))
+
+    # decision wrappers: private fns of the same file with the decision's parameters whose Ok exits are fieldless enum variants,
+    # each governed by one outcome of the decision
+    wrappers = {}
+    decf = facts.fns[dec]
+    for gp, g in sorted(facts.fns.items()):
+        if g.reachable or g.impl_trait or g.file != decf.file or gp == dec or not (g.output or '').startswith('std::result::Result<'):
+            continue
+        gb = g.body
+        if [gb.canon_op(a) for b_, t_ in gb.calls() if t_['callee'].get('path') == dec for a in t_['args']] != [('param', n) for n in g.param_names()] or len(g.param_names()) != 2:
+            continue
+        sw = []
+        for s_ in range(gb.n):
+            t_ = gb.term(s_)
+            if t_['k'] == 'switch' and not gb.blocks[s_]['cleanup']:
+                c_ = gb.canon_op(t_['discr'])
+                if c_[0] != 'discr' and mentions_call(c_, dec, tuple(('param', n) for n in g.param_names())):
+                    zero = [tg for v, tg in t_['targets'] if v == 0]
+                    if len(zero) == 1:
+                        sw.append(((s_, t_['otherwise']), (s_, zero[0])))
+        if len(sw) != 1:
+            continue
+        te, fe = sw[0]
+        vmap = {}
+        errs_, oks_ = core.result_exits(gb)
+        okp = True
+        for (b_, kind_, d_) in oks_:
+            if kind_ != 'ctor':
+                okp = False
+                break
+            st_ = gb.blocks[b_]['stmts'][d_]
+            pl_ = op_place(st_['rv']['ops'][0]) if st_['rv']['ops'] else None
+            vi = None
+            if pl_ is not None and not pl_['p']:
+                for dd in gb.defs().get(pl_['l'], []):
+                    if dd[0] == 'stmt':
+                        rv_ = gb.blocks[dd[1]]['stmts'][dd[2]]['rv']
+                        if rv_['k'] == 'agg' and rv_.get('agg') == 'adt' and not rv_.get('ops'):
+                            vi = rv_.get('vi')
+            if vi is None:
+                okp = False
+                break
+            if gb.edge_dominates(te, b_):
+                vmap[vi] = True
+            elif gb.edge_dominates(fe, b_):
+                vmap[vi] = False
+            else:
+                okp = False
+                break
+        if okp and sorted(vmap.values()) == [False, True]:
+            wrappers[gp] = vmap
+            ctx.ok('C09.b-single-source', 'decision-wrapper:%s@%s' % (gp, cfg), {'variant_for_high': [v for v, o_ in vmap.items() if o_], 'variant_for_low': [v for v, o_ in vmap.items() if not o_]})
+
     for cp in consumers:
         # private helpers of the same file (constructing / reconfiguring the inner codec) are analysed in place
         cf = core.inlined_fn(facts, cp, lambda g, t, f0=facts.fns[cp]: (not g.reachable and not g.impl_trait and not g.in_trait and g.kind != 'Closure'
-                                                                        and g.file == f0.file and g.path != dec), tag='c09d')
+                                                                        and g.file == f0.file and g.path != dec and g.path not in wrappers), tag='c09w')
         cb = cf.body
-        dcalls = [(b, t) for b, t in cb.calls() if t['callee'].get('path') == dec]
+        dcalls = [(b, t) for b, t in cb.calls() if t['callee'].get('path') == dec or t['callee'].get('path') in wrappers]
         okargs = dcalls and all([cb.canon_op(a) for a in t['args']] == [('param', 'original_count'), ('param', 'recovery_count')] for b, t in dcalls)
         if not okargs:
             ctx.violation('C09.b-single-source', 'decision-args', '%s does not call the decision with (original_count, recovery_count) in order' % cp,
@@ -277,6 +337,25 @@ def check(ctx, facts, cfg):
                     zero = [tgt for v, tgt in t['targets'] if v == 0]
                     if len(zero) == 1:
                         dsw.append((s, (s, t['otherwise']), (s, zero[0])))
+        # a private wrapper that turns the decision into a two-variant enum (`RateKind::select(o, r)?`): a switch on the
+        # discriminant of its result is a switch on the decision
+        for g in wrappers:
+            for s in range(cb.n):
+                t = cb.term(s)
+                if t['k'] != 'switch' or cb.blocks[s]['cleanup']:
+                    continue
+                c = cb.canon_op(t['discr'])
+                payload = c[0] == 'discr' and isinstance(c[1], tuple) and c[1][0] == 'field' and isinstance(c[1][1], tuple) and c[1][1][0] == 'down' and c[1][1][2] == 'Continue'
+                if payload and mentions_call(c, g, (('param', 'original_count'), ('param', 'recovery_count'))):
+                    vmap = wrappers[g]
+                    tgt_of = {v: tg for v, tg in t['targets']}
+                    rest = [v for v in vmap if v not in tgt_of]
+                    for v in rest:
+                        tgt_of[v] = t['otherwise']
+                    te = [(s, tgt_of[v]) for v, o_ in vmap.items() if o_ and v in tgt_of]
+                    fe = [(s, tgt_of[v]) for v, o_ in vmap.items() if not o_ and v in tgt_of]
+                    if len(te) == 1 and len(fe) == 1:
+                        dsw.append((s, te[0], fe[0]))
         n_uses = 0
         live0 = cb.reachable_from(0, removed_edges=cb.const_pruned_edges())     # M1: a helper inlined with a literal flag
         for b, t in cb.calls():
